@@ -48,6 +48,10 @@ type Task struct {
 	// SubGuard: the first command is `task: child<tid>`; the child has no sources, the precondition
 	// `test -f <SubGuard>` and one command appending to the trace
 	SubGuard string `json:"subguard,omitempty"`
+	// DepSpec/DepDst: the task has `deps: [gen<tid>]`; gen has no sources (always runs) and copies
+	// DepSpec to DepDst (one of this task's sources) when DepSpec exists
+	DepSpec string `json:"dep_spec,omitempty"`
+	DepDst  string `json:"dep_dst,omitempty"`
 }
 
 // defName is the name of the definition in the Taskfile (what goes on the command line).
@@ -183,6 +187,9 @@ func RenderTaskfile(proj []Task, fileSilent bool) string {
 			fmt.Fprintf(&sb, "    label: %s\n", yq(t.Label))
 		}
 		fmt.Fprintf(&sb, "    method: %s\n", t.Method)
+		if t.DepSpec != "" {
+			fmt.Fprintf(&sb, "    deps: [gen%d]\n", tid)
+		}
 		if t.Silent {
 			sb.WriteString("    silent: true\n")
 		}
@@ -236,6 +243,10 @@ func RenderTaskfile(proj []Task, fileSilent bool) string {
 		}
 	}
 	for tid, t := range proj {
+		if t.DepSpec != "" {
+			c := fmt.Sprintf(`if [ -f "$VH_ROOT/%s" ]; then mkdir -p "$(dirname "$VH_ROOT/%s")"; cp "$VH_ROOT/%s" "$VH_ROOT/%s"; fi`, t.DepSpec, t.DepDst, t.DepSpec, t.DepDst)
+			fmt.Fprintf(&sb, "  gen%d:\n    cmds:\n      - %s\n", tid, yq(c))
+		}
 		if t.SubGuard == "" {
 			continue
 		}
